@@ -40,7 +40,7 @@ def mergeChk (s : Schema) (d : Document) (e : Ev × Snap) : List Err :=
 theorem selset_step (s : Schema) (d : Document) (sel : List Selection) (parent : Option TypeDef)
     (hg : GoodSel s (docDepth d) sel) :
     ∃ cs, conflictsWithinSelectionSet s d (mergeFuel d) parent sel {} = (cs, {}) ∧
-      (cs = [] ↔ ¬ W s (specFieldsWith s (fun _ => []) parent sel)) := by
+      (cs = [] ↔ ¬ WBad s (specFieldsWith s (fun _ => []) parent sel)) := by
   unfold conflictsWithinSelectionSet
   rw [fieldsAndFragmentNames_ff s (fun _ => []) parent sel hg.1]
   have hF : ∀ a ∈ specFieldsWith s (fun _ => []) parent sel, depOf a ≤ docDepth d ∧ ffOf a := by
@@ -50,7 +50,7 @@ theorem selset_step (s : Schema) (d : Document) (sel : List Selection) (parent :
   obtain ⟨cs, hcs, hiff⟩ := conflictsWithin_ff s d (docDepth d) (mergeFuel d) _ {} hF (by simp [mergeFuel]; omega) rfl
   refine ⟨cs, ?_, ?_⟩
   · simp only [hcs, conflictsWithinSelectionSet.loop]
-  · rw [hiff]; unfold W; exact ⟨fun h hn => hn h, fun h => Classical.byContradiction h⟩
+  · rw [hiff]; unfold WBad; exact ⟨fun h hn => hn h, fun h => Classical.byContradiction h⟩
 
 /-- **C05 on spread-free documents.** -/
 theorem merge_iff_spreadFree (s : Schema) (d : Document) (hq : s.queryType.isSome = true)
@@ -73,7 +73,7 @@ theorem merge_iff_spreadFree (s : Schema) (d : Document) (hq : s.queryType.isSom
         simp only [hcs]
         rfl
       | _ => rfl
-  have hfires : fires .overlappingFieldsCanBeMerged s d ↔ ∃ F, Vis s d F ∧ W s F := by
+  have hfires : fires .overlappingFieldsCanBeMerged s d ↔ ∃ F, Vis s d F ∧ WBad s F := by
     unfold fires errsOf
     simp only [ruleOf]
     rw [runOn_const overlappingFieldsCanBeMerged s d (mergeChk s d) _ hstep]
